@@ -474,3 +474,95 @@ pub fn odd_chain_cells() -> Vec<(String, String, Value)> {
     out
 }
 pub const ODD_CHAIN_CELLS: u64 = 7 * 2 * 2;
+
+//
+// One session used for several exchanges in a row, with its own setters called in between and no
+// request or clone alive at that moment: every exchange is verified according to the session's
+// settings at the time the request is created (nothing built for an earlier exchange lives on).
+//
+pub fn session_sequence_cells() -> Vec<(String, String, Value)> {
+    let lab = lab();
+    let mut out = Vec::new();
+    #[derive(Clone, Copy, Debug)]
+    enum Step {
+        Certs(bool),
+        Hostnames(bool),
+        AddRoot,
+        /// one exchange; the expected outcome
+        Exchange(bool),
+    }
+    use Step::*;
+    // (certificate presented, steps)
+    let sequences: Vec<(&str, Vec<Step>)> = vec![
+        ("selfsigned", vec![Certs(true), Exchange(true), Certs(false), Exchange(false)]),
+        ("selfsigned", vec![Exchange(false), Certs(true), Exchange(true), Exchange(true), Certs(false), Exchange(false), Exchange(false)]),
+        ("othername", vec![AddRoot, Hostnames(true), Exchange(true), Hostnames(false), Exchange(false)]),
+        ("othername", vec![AddRoot, Exchange(false), Hostnames(true), Exchange(true)]),
+        ("good", vec![Exchange(false), AddRoot, Exchange(true)]),
+        ("expired", vec![AddRoot, Certs(true), Exchange(true), Certs(false), Hostnames(true), Exchange(false)]),
+    ];
+    for (cert, steps) in sequences {
+        for tunnel in [false, true] {
+            let _ = lab.take_log();
+            let (url, proxy) = if tunnel {
+                lab.proxy.set(|cfg| {
+                    cfg.outer_cert = None;
+                    cfg.inner_cert = Some(cert.to_string());
+                });
+                attohttpc::verif::set_resolution("proxy.test", Some(vec![lab.proxy.addr]));
+                ("https://good.test:8443/r".to_string(), Some(url::Url::parse("http://proxy.test:3128").unwrap()))
+            } else {
+                lab.origin4.set(|cfg| cfg.outer_cert = Some(cert.to_string()));
+                attohttpc::verif::set_resolution("good.test", Some(vec![lab.origin4.addr]));
+                (format!("https://good.test:{}/r", lab.origin4.addr.port()), None)
+            };
+            let mut session = attohttpc::Session::new();
+            match &proxy {
+                Some(u) => session.proxy_settings(attohttpc::ProxySettings::builder().https_proxy(u.clone()).build()),
+                None => session.proxy_settings(attohttpc::ProxySettings::builder().build()),
+            }
+            session.timeout(std::time::Duration::from_secs(10));
+            let mut done: Vec<String> = Vec::new();
+            for st in &steps {
+                match *st {
+                    Certs(v) => {
+                        session.danger_accept_invalid_certs(v);
+                        done.push(format!("danger_accept_invalid_certs({v})"));
+                    }
+                    Hostnames(v) => {
+                        session.danger_accept_invalid_hostnames(v);
+                        done.push(format!("danger_accept_invalid_hostnames({v})"));
+                    }
+                    AddRoot => {
+                        session.add_root_certificate(root_cert());
+                        done.push("add_root_certificate(root)".into());
+                    }
+                    Exchange(want) => {
+                        let res = crate::common::guarded(|| session.get(&url).send().and_then(|r| r.bytes()));
+                        let ok = matches!(&res, Ok(Ok(b)) if b == b"ok");
+                        done.push(format!("exchange -> {}", if ok { "ok" } else { "failed" }));
+                        if ok != want {
+                            let sig = if ok { "C14:unauthenticated-peer-accepted:SessionSequence" } else { "C14:valid-peer-rejected:SessionSequence" };
+                            out.push((
+                                sig.to_string(),
+                                format!(
+                                    "[{BACKEND}] one session, {} server presents {cert}.crt, steps so far: {}; the last exchange {} ({})",
+                                    if tunnel { "tunnelled," } else { "direct," },
+                                    done.join("; "),
+                                    if ok { "succeeded although the session's settings at that moment do not allow it" } else { "failed although the session's settings at that moment allow it" },
+                                    format!("{res:?}").chars().take(120).collect::<String>()
+                                ),
+                                json!({"engine": "c14", "backend": BACKEND, "session_sequence": true}),
+                            ));
+                            break;
+                        }
+                    }
+                }
+            }
+            attohttpc::verif::set_resolution("good.test", None);
+            attohttpc::verif::set_resolution("proxy.test", None);
+        }
+    }
+    out
+}
+pub const SESSION_SEQUENCE_CELLS: u64 = 6 * 2;
